@@ -41,7 +41,36 @@ COVER = {
 EXCLUDE_FNS = ("::sync_from_raft", "::update_raft_role", "::new", "::with_raft", "::default")
 
 
+def run_register_fresh(ctx, cfg="raft"):
+    """local mutator vs replicated arm: Coordinator::register_worker inserts a FRESH WorkerNode (no assigned pipelines, zero
+    counters), so the RegisterWorker arm of apply_command must build its WorkerEntry from the command payload and constants
+    only — a field taken over from the previous replicated entry makes the two views differ right after the acknowledged
+    registration, and the next sync_from_raft overwrites the local one"""
+    from vpr.prov import Slicer
+    F = ctx.facts(cfg)
+    fn = "varpulis_cluster::raft::state_machine::apply_command"
+    b = ctx.body(fn, cfg)
+    if b is None:
+        ctx.anchor_lost("mirror", "apply_command not found (cfg %s)" % cfg)
+        return
+    n = 0
+    for bb in sorted(b.live):
+        for s_ in b.stmts(bb):
+            if s_["k"] == "agg" and s_.get("agg", "").endswith("state_machine::WorkerEntry"):
+                n += 1
+                for fname, op in zip(s_.get("fields", []), s_["o"]):
+                    o = Slicer(b).origins([op])
+                    from_state = any(nm == "state" for _, nm in o.params) or any(a.endswith("CoordinatorState") for a, _ in o.fields)
+                    key = "register:WorkerEntry.%s" % fname
+                    if from_state:
+                        ctx.violation("mirror", key, "the RegisterWorker arm of apply_command fills WorkerEntry.%s from the previous replicated state, while the local Coordinator::register_worker inserts a fresh node: after an acknowledged re-registration the coordinator's view and the replicated state disagree on %s, and the next sync_from_raft reverts the local view to the stale value" % (fname, fname), site=s_["sp"])
+                    else:
+                        ctx.ok("mirror", key, "from the command payload / a constant")
+    ctx.floor("mirror", "WorkerEntry literals in apply_command", n, 1)
+
+
 def run(ctx):
+    ctx.guard("mirror", lambda: run_register_fresh(ctx))
     F = ctx.facts("raft")
     cg = ctx.cg("raft")
     variants = F.variants(C + "raft::ClusterCommand")
